@@ -62,10 +62,30 @@ class HarnessFailure(Exception):
     (independently of the model)."""
 
 
+class _FakeSyslog(object):
+    """Stands in for the syslog module inside supervisor.loggers (the real one
+    would write to the machine's syslog)."""
+    def __init__(self):
+        self.lines = []
+
+    def syslog(self, *a):
+        self.lines.append(a[-1])
+
+
+# how the ordinary log of the channel is configured
+LOG_FILE, LOG_NONE, LOG_ROTATING, LOG_SYSLOG_ONLY, LOG_FILE_AND_SYSLOG = range(5)
+
+
+def has_file(logmode):
+    return logmode in (LOG_FILE, LOG_ROTATING, LOG_FILE_AND_SYSLOG)
+
+
 class Rig(object):
     def __init__(self, workdir, tag='r'):
         from supervisor import loggers, events
         self.loggers = loggers
+        self.syslog = _FakeSyslog()
+        loggers.syslog = self.syslog
         self.events = events
         self.path = os.path.join(workdir, 'chan-%s.log' % tag)
         rig = self
@@ -118,7 +138,7 @@ class Rig(object):
         events.subscribe(events.ProcessCommunicationEvent, self.comm.append)
         events.subscribe(events.ProcessLogEvent, self.plog.append)
 
-    def make(self, channel, capmax, events_enabled=False, strip=False, debug=False):
+    def make(self, channel, capmax, events_enabled=False, strip=False, debug=False, logmode=0):
         from supervisor import dispatchers
         ev = self.events
         c = self.config
@@ -126,13 +146,27 @@ class Rig(object):
             setattr(c, ch + '_logfile', None)
             setattr(c, ch + '_capture_maxbytes', 0)
             setattr(c, ch + '_events_enabled', False)
-        setattr(c, channel + '_logfile', self.path)
+        for ch in ('stdout', 'stderr'):
+            setattr(c, ch + '_syslog', False)
+            setattr(c, ch + '_logfile_maxbytes', 0)
+            setattr(c, ch + '_logfile_backups', 0)
+        if has_file(logmode):
+            setattr(c, channel + '_logfile', self.path)
+        if logmode == LOG_ROTATING:
+            # a RotatingFileHandler that never has a reason to roll over
+            setattr(c, channel + '_logfile_maxbytes', 1 << 30)
+            setattr(c, channel + '_logfile_backups', 2)
+        if logmode in (LOG_SYSLOG_ONLY, LOG_FILE_AND_SYSLOG):
+            setattr(c, channel + '_syslog', True)
+        del self.syslog.lines[:]
+        self.logmode = logmode
         setattr(c, channel + '_capture_maxbytes', capmax)
         setattr(c, channel + '_events_enabled', events_enabled)
         self.options.strip_ansi = strip
         self.options.loglevel = self.loggers.LevelsByName.DEBG if debug else self.loggers.LevelsByName.INFO
         self.options.logger.records = []
-        open(self.path, 'wb').close()
+        if os.path.exists(self.path):
+            os.unlink(self.path)
         del self.comm[:]
         del self.plog[:]
         etype = ev.ProcessCommunicationStdoutEvent if channel == 'stdout' else ev.ProcessCommunicationStderrEvent
@@ -148,7 +182,9 @@ class Rig(object):
 
     def _step(self, with_plog, consumed):
         d = self.d
-        size = os.stat(self.path).st_size
+        size = os.stat(self.path).st_size if os.path.exists(self.path) else 0
+        if not has_file(self.logmode) and size:
+            raise HarnessFailure('a log file exists although none is configured')
         capv = d.capturelog.getvalue() if d.capturelog is not None else b''
         # judged by the harness itself
         if not consumed.endswith(d.output_buffer):
@@ -162,13 +198,22 @@ class Rig(object):
         out += [len(d.output_buffer), int(bool(d.capturemode)), len(capv), int(bool(d.closed))]
         return out
 
-    def run(self, frags, capmax, channel='stdout', events_enabled=False, strip=False, debug=False):
-        """-> (serialised trace, info dict)"""
-        d = self.make(channel, capmax, events_enabled, strip, debug)
+    def run(self, frags, capmax, channel='stdout', events_enabled=False, strip=False, debug=False, logmode=0):
+        """`frags`: script of reads (bytes) and 'reopen' / 'clear' steps
+        (POutputDispatcher.reopenlogs() / removelogs()).  -> (serialised trace, info dict)"""
+        d = self.make(channel, capmax, events_enabled, strip, debug, logmode)
         trace = []
         consumed = b''
         try:
             for f in frags:
+                if f == 'reopen':
+                    d.reopenlogs()
+                    trace += self._step(events_enabled, consumed)
+                    continue
+                if f == 'clear':
+                    d.removelogs()
+                    trace += self._step(events_enabled, consumed)
+                    continue
                 if not d.readable():
                     # drain() / the main loop never read a closed dispatcher
                     raise HarnessFailure('script reads after EOF')
@@ -178,8 +223,12 @@ class Rig(object):
                 trace += self._step(events_enabled, consumed)
             d.record_output(final=True)
             trace += self._step(events_enabled, consumed)
-            with open(self.path, 'rb') as fh:
-                log = fh.read()
+            log = b''
+            if os.path.exists(self.path):
+                with open(self.path, 'rb') as fh:
+                    log = fh.read()
+            if os.path.exists(self.path + '.1'):
+                raise HarnessFailure('the log was rotated although maxbytes was not reached')
             capv = d.capturelog.getvalue() if d.capturelog is not None else b''
             comm = []
             for e in self.comm:
@@ -204,7 +253,7 @@ class Rig(object):
             if debug and len(self.options.logger.records) != len([1 for _ in self.plog]) and events_enabled:
                 raise HarnessFailure('main-log debug records and PROCESS_LOG events differ in number')
             info = {'log': log, 'comm': comm, 'plog': plog, 'cap': capv, 'buf': d.output_buffer,
-                    'capmode': bool(d.capturemode)}
+                    'capmode': bool(d.capturemode), 'syslog': list(self.syslog.lines)}
         finally:
             self.close()
         return trace, info
@@ -236,15 +285,27 @@ def split_ref(stream, begin, end, capmax):
         pos = j + len(end)
 
 
-def judge(stream, info, begin, end, capmax):
-    """The C08 property on one completed run.  Returns None or a reason."""
+def judge(stream, info, begin, end, capmax, haslog=True, cleared=False):
+    """The C08 property on one completed run.  Returns None or a reason.
+    haslog=False: no ordinary log file is configured (the file must stay absent/empty).
+    cleared=True: removelogs() happened during the run: the log holds a trailing part of the
+    bytes outside capture sections and an event may hold a trailing part of its section."""
     logged, secs, _open = split_ref(stream, begin, end, capmax)
-    if info['log'] != logged:
+    if not haslog:
+        if info['log']:
+            return 'bytes in a log file although no log file is configured'
+    elif cleared:
+        if not logged.endswith(info['log']):
+            return 'log file is not a trailing part of the bytes outside capture sections'
+    elif info['log'] != logged:
         return 'log file differs from the bytes outside capture sections'
     if len(info['comm']) != len(secs):
         return 'number of PROCESS_COMMUNICATION events differs from the number of sections'
     for data, sec in zip(info['comm'], secs):
-        if len(sec) <= capmax:
+        if cleared:
+            if len(data) > capmax or not sec.endswith(data):
+                return 'event data is not a trailing part of the enclosed bytes within capture_maxbytes'
+        elif len(sec) <= capmax:
             if data != sec:
                 return 'event data differs from the enclosed bytes'
         elif len(data) > capmax or not sec.endswith(data):
@@ -267,8 +328,8 @@ def _worker_init(workdir):
 
 
 def sum_job(job):
-    """job = (syms, capmax, eof) -> (checksum over all fragmentations, n runs, judge failures)"""
-    syms, capmax, eof = job
+    """job = (syms, capmax, logmode, eof) -> (checksum over all fragmentations, n runs, judge failures)"""
+    syms, capmax, logmode, eof = job
     n = len(syms)
     total = 0
     bad = []
@@ -276,11 +337,11 @@ def sum_job(job):
     for mask in range(2 ** max(0, n - 1)):
         frags = frag_syms(_TABLE, syms, mask) + ([b''] if eof else [])
         try:
-            tr, info = _RIG.run(frags, capmax, channel='stdout' if (mask + n) % 2 == 0 else 'stderr')
+            tr, info = _RIG.run(frags, capmax, channel='stdout' if (mask + n) % 2 == 0 else 'stderr', logmode=logmode)
         except HarnessFailure as e:
             bad.append((mask, str(e)))
             continue
-        why = judge(stream, info, _TOK[0], _TOK[1], capmax)
+        why = judge(stream, info, _TOK[0], _TOK[1], capmax, haslog=has_file(logmode))
         if why:
             bad.append((mask, why))
         total += (mask + 1) * wsum(tr)
@@ -288,13 +349,22 @@ def sum_job(job):
 
 
 def exact_job(job):
-    """job = (frags, capmax, channel, events_enabled) -> (trace, judge failure or None, summary)"""
-    frags, capmax, channel, ev = job
+    """job = (script, capmax, channel, events_enabled, logmode) -> (trace, judge failure or None, summary)"""
+    frags, capmax, channel, ev, logmode = job
     try:
-        tr, info = _RIG.run(frags, capmax, channel=channel, events_enabled=ev)
+        tr, info = _RIG.run(frags, capmax, channel=channel, events_enabled=ev, logmode=logmode)
     except HarnessFailure as e:
         return None, str(e), None
-    why = judge(b''.join(frags), info, _TOK[0], _TOK[1], capmax)
+    script = frags
+    frags = [f for f in script if isinstance(f, bytes)]
+    why = judge(b''.join(frags), info, _TOK[0], _TOK[1], capmax, haslog=has_file(logmode), cleared='clear' in script)
+    if why is None and logmode in (LOG_SYSLOG_ONLY, LOG_FILE_AND_SYSLOG):
+        # syslog receives, line by line and prefixed with the program name, what the file receives
+        got = b''.join(l[len('prog '):].encode('utf-8') for l in info['syslog'])
+        want, _s, _o = split_ref(b''.join(frags), _TOK[0], _TOK[1], capmax)
+        if got != want.replace(b'\n', b''):
+            why = 'syslog lines differ from the bytes outside capture sections'
+
     captured_in_plog = None
     if ev:
         captured_in_plog = sum(len(x) for x in info['plog']) > len(info['log'])
@@ -347,19 +417,19 @@ def cut_frags(s, c1, c2):
 
 
 def cuts_job(job):
-    """job = (stream, capmax, stride) -> (checksum, n runs, [(c1, c2, why)])"""
-    s, capmax, stride = job
+    """job = (stream, capmax, logmode, stride) -> (checksum, n runs, [(c1, c2, why)])"""
+    s, capmax, logmode, stride = job
     total = 0
     bad = []
     pairs = cut_pairs(len(s), stride)
     for i, (c1, c2) in enumerate(pairs):
         frags = cut_frags(s, c1, c2)
         try:
-            tr, info = _RIG.run(frags, capmax, channel='stdout' if i % 2 == 0 else 'stderr')
+            tr, info = _RIG.run(frags, capmax, channel='stdout' if i % 2 == 0 else 'stderr', logmode=logmode)
         except HarnessFailure as e:
             bad.append((c1, c2, str(e)))
             continue
-        why = judge(s, info, _TOK[0], _TOK[1], capmax)
+        why = judge(s, info, _TOK[0], _TOK[1], capmax, haslog=has_file(logmode))
         if why:
             bad.append((c1, c2, why))
         total += (i + 1) * wsum(tr)
